@@ -335,7 +335,12 @@ fn cmd_fault(m: &HashMap<String, String>) -> i32 {
         .get("idx")
         .and_then(|i| i.parse().ok())
         .map(|i| (i, m.contains_key("sticky")));
-    let mut results = vec![];
+    // shared with the watchdog: on a hang it dumps what there is (the trace of the running
+    // execution with a Hang event, the results so far) and ends the process
+    let results: Arc<parking_lot::Mutex<Vec<serde_json::Value>>> = Arc::new(parking_lot::Mutex::new(vec![]));
+    let shared_lines: Arc<parking_lot::Mutex<Vec<serde_json::Value>>> =
+        Arc::new(parking_lot::Mutex::new(vec![]));
+    let chunk_no = Arc::new(std::sync::atomic::AtomicU64::new(0));
     let mut chunk = 0;
     let mut run_no = 0u64;
     for seed in seed0..seed0 + runs {
@@ -343,6 +348,12 @@ fn cmd_fault(m: &HashMap<String, String>) -> i32 {
         let hang_info = Arc::new(parking_lot::Mutex::new(String::new()));
         let hi2 = Arc::clone(&hang_info);
         let out2 = out.clone();
+        let (res2, lines2, chunk2) = (
+            Arc::clone(&results),
+            Arc::clone(&shared_lines),
+            Arc::clone(&chunk_no),
+        );
+        let (nops2, large2, rh2, rf2) = (nops, large, reopen_heavy, read_faults);
         let wd = Watchdog::start(
             Duration::from_secs(arg(m, "deadline", 180)),
             Box::new(move |what| {
@@ -350,6 +361,40 @@ fn cmd_fault(m: &HashMap<String, String>) -> i32 {
                 let _ = std::fs::write(
                     out2.join("hang.json"),
                     serde_json::to_string(&json!({"what": what, "run": info})).unwrap(),
+                );
+                // the running execution: everything logged so far + a Hang event
+                let mut lines = lines2.lock().clone();
+                if let Some(sink) = fault::current_sink() {
+                    sink.emit_json("Hang", json!({"what": what}));
+                    lines.extend(sink.snapshot());
+                }
+                lines.push(json!({"e": "End", "i": 0, "t": "main"}));
+                let c = chunk2.load(std::sync::atomic::Ordering::SeqCst);
+                let tpath = out2.join(format!("trace_{:04}.ndjson", c));
+                let _ = trace::write_ndjson(&tpath, &lines);
+                let parts: Vec<&str> = info.split_whitespace().collect();
+                let (seed, idx, sticky) = (
+                    parts.get(1).and_then(|x| x.parse::<u64>().ok()).unwrap_or(0),
+                    parts.get(3).and_then(|x| x.parse::<u64>().ok()).unwrap_or(0),
+                    parts.get(5).map(|x| *x == "true").unwrap_or(false),
+                );
+                let rpath = out2.join(format!("replay_{}_{}_{}.json", seed, idx, sticky));
+                let _ = std::fs::write(
+                    &rpath,
+                    serde_json::to_string(&json!({"driver": "fault", "seed": seed, "nops": nops2,
+                        "large": large2, "reopen_heavy": rh2, "read_faults": rf2, "idx": idx,
+                        "sticky": sticky}))
+                    .unwrap(),
+                );
+                let mut res = res2.lock().clone();
+                res.push(json!({"seed": 0, "wseed": seed, "idx": idx, "sticky": sticky,
+                    "status": "hang", "fired": 1, "events": lines.len(),
+                    "trace": tpath.to_string_lossy(), "replay": rpath.to_string_lossy(),
+                    "nops": nops2, "large": large2, "reopen_heavy": rh2, "read_faults": rf2,
+                    "panics": Vec::<String>::new()}));
+                let _ = std::fs::write(
+                    out2.join("results.json"),
+                    serde_json::to_string_pretty(&json!({"runs": res, "aborted": true})).unwrap(),
                 );
                 std::process::exit(3);
             }),
@@ -405,20 +450,23 @@ fn cmd_fault(m: &HashMap<String, String>) -> i32 {
                     )
                     .unwrap();
                 }
-                results.push(json!({"seed": run_no, "wseed": seed, "idx": idx, "sticky": sticky,
+                results.lock().push(json!({"seed": run_no, "wseed": seed, "idx": idx, "sticky": sticky,
                     "status": o.status, "fired": o.fired, "events": o.lines.len(),
                     "trace": out.join(format!("trace_{:04}.ndjson", chunk)).to_string_lossy(),
                     "replay": rpath.to_string_lossy(), "nops": nops, "large": large, "reopen_heavy": reopen_heavy, "read_faults": read_faults,
                     "panics": Vec::<String>::new()}));
                 lines.extend(o.lines);
+                *shared_lines.lock() = lines.clone();
                 in_chunk += 1;
                 if in_chunk >= 25 {
                     lines.push(json!({"e": "End", "i": 0, "t": "main"}));
                     trace::write_ndjson(&out.join(format!("trace_{:04}.ndjson", chunk)), &lines)
                         .unwrap();
                     lines.clear();
+                    shared_lines.lock().clear();
                     in_chunk = 0;
                     chunk += 1;
+                    chunk_no.store(chunk as u64, std::sync::atomic::Ordering::SeqCst);
                 }
             }
         }
@@ -426,14 +474,16 @@ fn cmd_fault(m: &HashMap<String, String>) -> i32 {
             lines.push(json!({"e": "End", "i": 0, "t": "main"}));
             trace::write_ndjson(&out.join(format!("trace_{:04}.ndjson", chunk)), &lines).unwrap();
             chunk += 1;
+            chunk_no.store(chunk as u64, std::sync::atomic::Ordering::SeqCst);
+            shared_lines.lock().clear();
         }
         wd.stop();
-        results.push(json!({"seed": 0, "wseed": seed, "status": "reference", "total_ops": n,
+        results.lock().push(json!({"seed": 0, "wseed": seed, "status": "reference", "total_ops": n,
                             "classes": reference.classes.iter().map(|c| c.1.clone()).collect::<std::collections::BTreeSet<_>>()}));
     }
     std::fs::write(
         out.join("results.json"),
-        serde_json::to_string_pretty(&json!({"runs": results, "aborted": false})).unwrap(),
+        serde_json::to_string_pretty(&json!({"runs": results.lock().clone(), "aborted": false})).unwrap(),
     )
     .unwrap();
     0
